@@ -12,7 +12,7 @@ C2         the JSON reader (picojson of the working tree, harness/c34.cpp) turns
 P_impl     independent of the model: every well-formed line of an enabled, unsuppressed severity is reported with its fields,
            once per rendered text; no crash (exit status is a normal cppcheck status) for every class of malformed output
 """
-import json, os, stat, shutil
+import json, os, stat, shutil, time
 import xml.etree.ElementTree as ET
 from concurrent.futures import ThreadPoolExecutor
 from .. import core
@@ -66,8 +66,8 @@ FILE0 = "t.c"
 def names(j):
     """file names of case j inside a multi-file process (None: a process of its own); no name is a suffix of another"""
     if j is None:
-        return dict(t="t.c", o="other.h", d="dir/x.c", h="h.h")
-    return dict(t="t%02d.c" % j, o="o%02d.h" % j, d="d%02d/x.c" % j, h="h%02d.h" % j)
+        return dict(t="t.c", o="other.h", d="dir/x.c", h="h.h", tag="")
+    return dict(t="t%02d.c" % j, o="o%02d.h" % j, d="d%02d/x.c" % j, h="h%02d.h" % j, tag=" #%02d" % j)
 INT64 = (-(1 << 63), (1 << 63) - 1)
 
 
@@ -96,7 +96,8 @@ def gen_obj(rng, addon, nm):
         o["loc"] = [dict(file=rng.choice([nm["t"], nm["h"]]), linenr=rng.choice([1, 2, 9]), column=rng.choice([1, 4]), info=rng.choice(["", "note", "a<b"]))
                     for _ in range(rng.choice([0, 1, 1, 2, 3]))]
     o["severity"] = rng.choice(SEVS[:6]) if rng.random() < 0.7 else rng.choice(SEVS)
-    o["message"] = rng.choice(STRS)
+    # (inside a multi-file process the executor's duplicate filter spans the files: messages are made case-specific there)
+    o["message"] = rng.choice(STRS) + nm["tag"]
     o["addon"] = addon
     o["errorId"] = rng.choice(["e1", "e2", "rule-1.2", "logChecker", "x"])
     o["extra"] = rng.choice(["", "Advisory"])
@@ -343,7 +344,8 @@ def run_proc(ctx, k, cases):
 
 def eff_enabled(case):
     # cppcheck's CLI: --enable=style also enables warning, performance and portability
-    eff = set(case["enabled"]) | {"error"}
+    # --debug-warnings does not enable Severity::debug in Settings::severity: an addon finding of severity debug is never shown
+    eff = (set(case["enabled"]) - {"debug"}) | {"error"}
     if "style" in eff:
         eff |= {"warning", "performance", "portability"}
     return eff
@@ -511,12 +513,13 @@ def run(ctx, res):
     drv = ctx.driver("drv_c34")
     hexe = ctx.harness("c34")
     rng = ctx.rng
-    nb, size, nsingle = (60, 20, 60) if ctx.tier == "thorough" else (14, 20, 12)
+    nb, size, nsingle = (60, 20, 60) if ctx.tier == "thorough" else (8, 20, 4)
     # processes: every corpus case and some generated ones on their own (exit status per case), the rest 20 files per process
     procs = [[c] for c in load_corpus()] + [gen_batch(rng, 1) for _ in range(nsingle)] + [gen_batch(rng, size) for _ in range(nb)]
     cases = [c for p in procs for c in p]
     texts = [case_text(c) for c in cases]
 
+    t0 = time.time()
     # C2: the real JSON reader on every brace line (+ python's own view of the lines it built)
     blines = []
     for t in texts:
@@ -545,8 +548,10 @@ def run(ctx, res):
         raise core.CheckBroken("C34 driver rejected an op (%s): %s" % (mo[badi] if mo else me[-200:], ops[badi][:300]))
 
     # the real binary
+    t1 = time.time()
     with ThreadPoolExecutor(max_workers=8) as ex:
         runs = list(ex.map(lambda kp: run_proc(ctx, kp[0], kp[1]), list(enumerate(procs))))
+    res.extra["phase_s"] = dict(harness_and_model=round(t1 - t0, 1), binary=round(time.time() - t1, 1))
 
     bad, bad_k = [], []
     seen_class = {}
@@ -617,9 +622,11 @@ def run(ctx, res):
 
     # summaries of several addons must all reach the whole-program phase (with and without build dir)
     bad_s = []
-    nsum = 40 if ctx.tier == "thorough" else 12
+    nsum = 40 if ctx.tier == "thorough" else 8
+    t2 = time.time()
     with ThreadPoolExecutor(max_workers=6) as ex:
         rs = list(ex.map(lambda k: summary_run(ctx, rng_fork(rng, k), 7000 + k, builddir=(k % 2 == 0)), range(nsum)))
+    res.extra["phase_s"]["summaries"] = round(time.time() - t2, 1)
     for k, r in enumerate(rs):
         b = summary_eval(ctx, res, drv, r, k)
         if b is not None:
